@@ -11,6 +11,8 @@
 //!   sim_programs    `MultiNodeSimulation` (in-tree simulator glue) with generated SET/DEL
 //!                   programs, partitions, loss, healing, then full-state exchange.
 
+mod coord;
+
 use proptest::prelude::*;
 use redis_sim::production::{ReplicatedShardActor, ReplicatedShardHandle};
 use redis_sim::replication::{
@@ -477,6 +479,8 @@ impl<'a, 'b> Net<'a, 'b> {
                 },
             );
         }
+        // what the node's replication state held before the command (for the stamp invariant)
+        let pre_snap = self.snapshot(node).await;
         let (reply, returned) = run(&self.nodes[node], &args).await?;
         let mut deltas = self.nodes[node].drain_pending_deltas().await;
         if let Some(r) = returned {
@@ -501,6 +505,41 @@ impl<'a, 'b> Net<'a, 'b> {
                 )
             }
         ));
+
+        // ---- always-on stamp invariant, independent of every tolerance: a delta that changes the
+        // key's replicated content carries an outer stamp of this node that is strictly greater
+        // than every outer stamp the node held before the command (and than the stamps of the
+        // deltas the same command emitted before it). Every local write ticks the shard clock,
+        // and the clock is never behind a value the node holds.
+        let mut high: Stamp = pre_snap.values().map(|v| stamp(&v.timestamp)).max().unwrap_or((0, 0));
+        let mut prev_of: BTreeMap<String, ReplicatedValue> = BTreeMap::new();
+        for d in &deltas {
+            let prev = prev_of.get(&d.key).or_else(|| pre_snap.get(&d.key));
+            let changed = match prev {
+                Some(p) => vcore::proj::peer_view(p)["crdt"] != vcore::proj::peer_view(&d.value)["crdt"],
+                None => true,
+            };
+            if changed {
+                let out = stamp(&d.value.timestamp);
+                if out.1 != node as u64 + 1 || out <= high {
+                    return Err(self.fail(format!(
+                        "n{} {}: the delta for {} changes the replicated content ({} -> {}) but its outer stamp ({}, r{}) is not a fresh stamp of this node: the node already held ({}, r{})",
+                        node + 1,
+                        argv.join(" "),
+                        d.key,
+                        prev.map(show_rv).unwrap_or_else(|| "(no entry)".into()),
+                        show_rv(&d.value),
+                        out.0,
+                        out.1,
+                        high.0,
+                        high.1
+                    )));
+                }
+                high = out;
+                self.ctx.label("invariant:delta_stamp_fresh");
+            }
+            prev_of.insert(d.key.clone(), d.value.clone());
+        }
 
         // ---- classification of the command for the bookkeeping
         let is_plain_set = name == "SET" && args.len() == 3;
@@ -764,6 +803,31 @@ impl<'a, 'b> Net<'a, 'b> {
             for o in &obs {
                 if let Body::Other(s) = &o.body {
                     return Err(self.fail(format!("[{}] key {}: a node's read replies are inconsistent with each other: {}", stage, key, s)));
+                }
+            }
+            // ---- always-on: two replicas never hold values of different CRDT kinds under the same
+            // outer stamp. A stamp is issued once, for one write; the open type-flip findings
+            // (KF-C06-06/-08) are about values with *different* stamps meeting in different orders
+            // and do not explain a tie.
+            let held: Vec<(usize, bool, Stamp)> = (0..n)
+                .filter_map(|i| snaps[i].get(&key).map(|v| (i, v.is_hash(), stamp(&v.timestamp))))
+                .collect();
+            for a in &held {
+                for b in &held {
+                    if a.0 < b.0 && a.1 != b.1 && a.2 == b.2 {
+                        return Err(self.fail(format!(
+                            "[{}] key {}: n{} holds a {} and n{} a {} under the same outer stamp ({}, r{}): two different writes carry one stamp{}",
+                            stage,
+                            key,
+                            a.0 + 1,
+                            if a.1 { "hash" } else { "string register" },
+                            b.0 + 1,
+                            if b.1 { "hash" } else { "string register" },
+                            a.2 .0,
+                            a.2 .1,
+                            describe(&obs, &snaps)
+                        )));
+                    }
                 }
             }
             // ---- B: served = own replication state
@@ -1259,6 +1323,13 @@ fn main() {
         "MultiNodeSimulation driven by generated SET/DEL/gossip/partition/heal/loss steps, then healed, flushed and fully exchanged: GET equal on all nodes, equal to the node's replication state, equal to the write with the greatest stamp",
     );
 
+    s.describe_check(
+        "coordinator_programs",
+        "2-3 production ReplicatedShardedStates (16 shard actors each, delta sink attached); SET/DEL/INCR/APPEND/GET and multi-key DEL/MSET/MGET/EXISTS on keys of one shard and of different shards; what the coordinator forwards to the sink travels (any order, duplicates). Immediate oracle at the accepting node (an accepted write is served, multi-key reads agree with single-key reads), then agreement and served = state at Q1 (all forwarded deltas delivered) and Q2 (full-state exchange from snapshot_state())",
+    );
+    s.probe(coord::KF9, json!({"case": coord::coord_reproducer()}), || {
+        s.strict_eval(|ctx| coord::check_coord(&coord::coord_reproducer(), ctx)).err()
+    });
     for (id, case) in reproducers() {
         s.probe(id, json!({"case": case}), || s.strict_eval(|ctx| check_case(&case, ctx)).err());
     }
@@ -1266,5 +1337,6 @@ fn main() {
     let thorough = s.thorough();
     s.run_cases("actor_programs", s.scale(50_000, 1_000_000), || case_strategy(thorough), check_case);
     s.run_cases("sim_programs", s.scale(30_000, 400_000), || sim_case_strategy(thorough), check_sim);
+    s.run_cases("coordinator_programs", s.scale(5_000, 150_000), || coord::coord_case_strategy(thorough), coord::check_coord);
     s.finish();
 }
